@@ -280,6 +280,11 @@ func (s *Synchronizer) advanceView(syncInfo hotstuff.SyncInfo) {
 		s.logger.Infof("advanceView: Failed to verify sync info: %v", err)
 		return
 	}
+	if tc, ok := syncInfo.TC(); ok {
+		// Remember the highest verified timeout certificate: timeout messages carry it, so that
+		// a replica that missed the quorum of timeouts for a view can still leave that view.
+		s.state.UpdateHighTC(tc)
+	}
 	if qc != nil {
 		updated, err := s.state.UpdateHighQC(*qc)
 		if err != nil {
